@@ -192,6 +192,17 @@ func (g *gen) entryIBTP() CStep {
 	return s
 }
 
+// call: a direct invocation of an enumerated contract method (resolved at execution time)
+func (g *gen) call() CStep {
+	r := g.r
+	c := r.Intn(64)
+	if r.Chance(0.3) {
+		c = -1
+	}
+	return CStep{Op: "call", C: c, N: r.Intn(256), A: r.Intn(1 << 20), B: r.Intn(1 << 20),
+		Role: []string{"outsider", "outsider", "outsider", "chainadmin", "otherchainadmin", "govadmin", "node"}[r.Intn(7)]}
+}
+
 func (g *gen) transfer() CStep {
 	r := g.r
 	classes := []string{"zero", "one", "small", "small", "exact", "over", "huge", "junk"}
@@ -221,6 +232,17 @@ func (g *gen) cut() CStep { return CStep{Op: "cut"} }
 func (g *gen) step(prop string) []CStep {
 	r := g.r
 	switch prop {
+	case "C17":
+		switch r.Weighted([]int{14, 3, 4, 1}) {
+		case 0:
+			return []CStep{g.call()}
+		case 1:
+			return []CStep{g.ibtp()}
+		case 2:
+			return []CStep{g.cut()}
+		default:
+			return []CStep{g.transfer()}
+		}
 	case "C03":
 		w := []int{8, 2, 4, 3, 0}
 		if g.cfg.Relay > 0 {
